@@ -4,6 +4,7 @@
  "props": ["C08"],
  "level": "U/iter",
  "tier": "quick",
+ "tier_after_hooks": "quick",
  "harness": "h_extent_translate",
  "includes": ["resize"],
  "loop_contracts": true,
@@ -23,7 +24,7 @@
  "name": "rsz_extent_translate_big",
  "props": ["C08"],
  "level": "U/iter",
- "tier": "obs",
+ "tier": "quick",
  "harness": "h_extent_translate",
  "includes": ["resize"],
  "loop_contracts": true,
@@ -31,7 +32,7 @@
  "unwind": 10,
  "unwind_reason": "as rsz_extent_translate",
  "functions": ["resize/extent.c:ext2fs_extent_translate"],
- "assumes": ["as rsz_extent_translate but with up to 2^26 runs: EXPECTED TO FAIL on 'mid stays in [low, high]' -- (float)(high-low) rounds up once high-low needs more than 24 bits, so range == 1 puts mid behind high (and behind the end of the table): findings/C08_extent_translate_float_oob"],
+ "assumes": ["as rsz_extent_translate but with up to 2^26 runs: FAILS ON THE PINNED TREE (genuine defect, passes with findings/C08_extent_translate_float_oob/proposed-fix.patch) on 'mid stays in [low, high]' -- (float)(high-low) rounds up once high-low needs more than 24 bits, so range == 1 puts mid behind high (and behind the end of the table): findings/C08_extent_translate_float_oob"],
  "native": false
 }
 */
